@@ -144,28 +144,45 @@ func Main(id, tier string) int {
 	for i, sp := range spaces {
 		spaceIdx[sp.Name] = i
 	}
+	bySig := map[string][]Failure{}
 	for _, f := range viol {
 		perSig[f.Sig]++
-		if perSig[f.Sig] > 2 || written >= 25 {
-			continue
+		bySig[f.Sig] = append(bySig[f.Sig], f)
+	}
+	var sigOrder []string
+	for s := range bySig {
+		sigOrder = append(sigOrder, s)
+	}
+	sort.Slice(sigOrder, func(i, j int) bool {
+		if len(bySig[sigOrder[i]]) != len(bySig[sigOrder[j]]) {
+			return len(bySig[sigOrder[i]]) < len(bySig[sigOrder[j]])
 		}
-		dir := filepath.Join(VerifDir, "replays", id)
-		os.MkdirAll(dir, 0o755)
-		path := filepath.Join(dir, f.Hash+".json")
-		var desc interface{}
-		if si, ok := spaceIdx[f.Space]; ok && spaces[si].Describe != nil {
-			desc = spaces[si].Describe(f.Index)
+		return sigOrder[i] < sigOrder[j]
+	})
+	for pass := 0; pass < 2; pass++ {
+		for _, sg := range sigOrder {
+			if pass >= len(bySig[sg]) || written >= 60 {
+				continue
+			}
+			f := bySig[sg][pass]
+			dir := filepath.Join(VerifDir, "replays", id)
+			os.MkdirAll(dir, 0o755)
+			path := filepath.Join(dir, f.Hash+".json")
+			var desc interface{}
+			if si, ok := spaceIdx[f.Space]; ok && spaces[si].Describe != nil {
+				desc = spaces[si].Describe(f.Index)
+			}
+			rep := map[string]interface{}{
+				"property": id, "tier": tier, "space": f.Space, "index": f.Index,
+				"signature": f.Sig, "hash": f.Hash, "case": desc, "detail": f.Detail,
+				"replay": fmt.Sprintf("/verif/bin/vcheck replay %s", path),
+			}
+			b, _ := json.MarshalIndent(rep, "", " ")
+			os.WriteFile(path, b, 0o644)
+			fmt.Printf("VIOLATION property=%s replay=%s\n", id, path)
+			fmt.Printf("  signature: %s\n", f.Sig)
+			written++
 		}
-		rep := map[string]interface{}{
-			"property": id, "tier": tier, "space": f.Space, "index": f.Index,
-			"signature": f.Sig, "hash": f.Hash, "case": desc, "detail": f.Detail,
-			"replay": fmt.Sprintf("make -C /verif replay FILE=%s", path),
-		}
-		b, _ := json.MarshalIndent(rep, "", " ")
-		os.WriteFile(path, b, 0o644)
-		fmt.Printf("VIOLATION property=%s replay=%s\n", id, path)
-		fmt.Printf("  signature: %s\n", f.Sig)
-		written++
 	}
 	if len(viol) > written {
 		fmt.Printf("  (%d further violating cases; signature counts below)\n", len(viol)-written)
